@@ -54,6 +54,19 @@ theorem c02_current_source_refines (env : Env) (hc : CmpReturnsBool env) (e : Ex
     (pyEval Gen.tables.names env e).2 = .ok v ∧ (walk Gen.tables env e).1 = (pyEval Gen.tables.names env e).1 :=
   ⟨c02_refines _ env c02_tables_match_python hc e v h, c02_nothing_dropped _ env c02_tables_match_python hc e v h⟩
 
+/-- Pathway level (what `_glycolysis` runs after parsing vs. "compile, then evaluate"): the refinement, the failure
+    direction and the trace equality hold for the math pathway against `pyRun`, which refuses a repeated keyword
+    anywhere in the text — evaluated or not — as CPython's compiler does. -/
+theorem c02_math_pathway_refines (T : Tables) (env : Env) (hT : TablesSound T) (hc : CmpReturnsBool env) (e : Expr) :
+    (∀ v, (glycolysis T env e).2 = .ok v →
+        (pyRun T.names env e).2 = .ok v ∧ (glycolysis T env e).1 = (pyRun T.names env e).1) ∧
+    ((pyRun T.names env e).failed → (glycolysis T env e).failed) := by
+  unfold glycolysis pyRun
+  split
+  · exact ⟨fun v h => by simp [R.fail] at h, fun _ => failed_fail _⟩
+  · exact ⟨fun v h => ⟨c02_refines T env hT hc e v h, c02_nothing_dropped T env hT hc e v h⟩,
+           c02_python_raises_engine_fails T env hT hc e⟩
+
 /-- Keyword arguments reach the callee: a successful call passes every keyword value, by name, in order. -/
 theorem c02_keywords_passed (T : Tables) (env : Env) (fn : String) (args kv : List Expr) (kn : List (Option String))
     (v : Val) (h : (walk T env (.call (.name fn) args kn kv)).2 = .ok v) :
@@ -63,18 +76,35 @@ theorem c02_keywords_passed (T : Tables) (env : Env) (fn : String) (args kv : Li
   unfold walk at h ⊢
   simp only at h ⊢
   split at h
-  · rcases h1 : walkList T env args with ⟨t1, r1⟩
-    rcases h2 : walkKws T env kn kv with ⟨t2, r2⟩
-    cases r1 with
-    | error er => simp [R.bind, R.act, h1] at h
-    | ok as =>
-      cases r2 with
-      | error er => simp [R.bind, R.act, h1, h2] at h
-      | ok ks =>
-        refine ⟨as, ks, rfl, rfl, ?_, ?_⟩
-        · simpa [R.bind, R.act, h1, h2] using h
-        · rename_i hm; simp [R.bind, R.act, h1, h2, hm]
+  · rename_i hm
+    split at h
+    · simp [R.fail] at h
+    · rename_i hdup
+      rw [if_pos hm, if_neg hdup]
+      rcases h1 : walkList T env args with ⟨t1, r1⟩
+      rcases h2 : walkKws T env kn kv with ⟨t2, r2⟩
+      cases r1 with
+      | error er => simp [R.bind, R.act, h1] at h
+      | ok as =>
+        cases r2 with
+        | error er => simp [R.bind, R.act, h1, h2] at h
+        | ok ks =>
+          refine ⟨as, ks, rfl, rfl, ?_, ?_⟩
+          · simpa [R.bind, R.act, h1, h2] using h
+          · simp [R.bind, R.act]
   · simp [R.fail] at h
+
+/-- A call that repeats a keyword name (`round(x, ndigits=1, ndigits=2)`: CPython's parser lets it through, its
+    compiler refuses the expression) fails without evaluating anything — in the walker and in the specification. -/
+theorem c02_repeated_keyword_fails (T : Tables) (env : Env) (fn : String) (args kv : List Expr)
+    (kn : List (Option String)) (hd : hasDupKw kn = true) :
+    (walk T env (.call (.name fn) args kn kv)).failed ∧ (walk T env (.call (.name fn) args kn kv)).1 = [] ∧
+    (pyEval T.names env (.call (.name fn) args kn kv)).failed := by
+  unfold walk pyEval
+  simp only [hd, if_true]
+  refine ⟨?_, ?_, failed_fail _⟩
+  · split <;> exact failed_fail _
+  · split <;> rfl
 
 /-- The logic pathway is `bool(...)` of the walk of the tree in which only the NAMES `true` / `false` were turned
     into constants. -/
@@ -82,6 +112,8 @@ theorem c02_logic_is_bool_of_walk (T : Tables) (env : Env) (e : Expr) (b : Val)
     (h : (krebs T env e).2 = .ok b) :
     ∃ v t, (walk T env (normalise e)).2 = .ok v ∧ (truthyR env v).2 = .ok t ∧ b = .bool t := by
   unfold krebs at h
+  split at h
+  · simp [R.fail] at h
   rcases h1 : walk T env (normalise e) with ⟨t1, r1⟩
   cases r1 with
   | error er => simp [R.bind, h1] at h
@@ -115,6 +147,9 @@ example : CmpReturnsBool ⟨fun _ => .h 1, fun p _ => if p = .add then .ok (.h 2
 /-- `c02_keywords_passed`: `round(pi, ndigits=e)` succeeds and the callee sees one keyword -/
 example : (walk Gen.tables envInt (.call (.name "round") [.name "pi"] [some "ndigits"] [.name "e"])).2 = .ok (.h 11) := by
   rfl
+
+/-- `c02_repeated_keyword_fails`: `ndigits` twice -/
+example : hasDupKw [some "ndigits", some "ndigits"] = true := by decide
 
 /-- `c02_python_raises_engine_fails`: Python raises NameError on an unbound name -/
 example : (pyEval Gen.tables.names envInt (.name "zz")).failed := ⟨_, rfl⟩
